@@ -113,6 +113,7 @@ type rtspClient struct {
 	frames  []*oracle.WireMsg // interleaved frames received so far
 	resps   []*oracle.WireMsg
 	rdErr   error
+	ip      string // the address the server sees for this client (tcp)
 
 	// WebSocket transports: ws = the ws-rtsp connection or the WSP control channel,
 	// data = the WSP data channel (frames are collected by a reader task).
@@ -271,11 +272,12 @@ func (cl *rtspClient) readOne() (*oracle.WireMsg, error) {
 func (sw *svcWorld) rtspConnect(name string, window int) *rtspClient {
 	cc, sc := sw.w.NewConnPair(name, window)
 	sw.nextAddr++
-	sc.SetRemoteAddr(fmt.Sprintf("10.9.1.%d:5%04d", sw.nextAddr, sw.nextAddr))
+	ip := fmt.Sprintf("10.9.1.%d", sw.nextAddr)
+	sc.SetRemoteAddr(fmt.Sprintf("%s:5%04d", ip, sw.nextAddr))
 	sw.conns = append(sw.conns, cc, sc)
 	sw.svc.VerifRTSPAccept()(sc)
 	sw.w.Y("rtsp.connected") // lets the new session goroutine register on its own (stable task ids)
-	return &rtspClient{w: sw.w, name: name, c: cc, br: bufio.NewReaderSize(cc, 128<<10)}
+	return &rtspClient{w: sw.w, name: name, c: cc, br: bufio.NewReaderSize(cc, 128<<10), ip: ip}
 }
 
 // request formats a request (CSeq assigned) without sending it.
